@@ -219,7 +219,7 @@ func ipv6PlaceAnalysis(c *Ctx) *aiOutcome {
 					}
 				}
 			}
-			var vPiece, vCompress, vAddr ssa.Value
+			var vPiece, vCompress, vAddr, vFlag ssa.Value
 			var opaque []ssa.Value
 			var names []string
 			for v := range livein {
@@ -244,6 +244,13 @@ func ipv6PlaceAnalysis(c *Ctx) *aiOutcome {
 					case *ssa.Parameter:
 						opaque = append(opaque, v)
 					default:
+						// a boolean that is false or true by assignment only: "a '::' has been seen" kept beside its place
+						if bt, ok := t.Underlying().(*types.Basic); ok && bt.Kind() == types.Bool && vFlag == nil {
+							if _, isPhi := v.(*ssa.Phi); isPhi {
+								vFlag = v
+								continue
+							}
+						}
 						names = append(names, v.Name()+" "+n)
 					}
 				}
@@ -275,9 +282,45 @@ func ipv6PlaceAnalysis(c *Ctx) *aiOutcome {
 			for k := range ks {
 				none = k
 			}
-			if none >= 1 && none <= 8 {
+			if vFlag == nil && none >= 1 && none <= 8 {
 				undecided("the 'no compression' value of compress is a possible place")
 				return out
+			}
+			if vFlag != nil {
+				// the flag must say exactly "compress has been set": edge by edge, the flag takes true where compress takes
+				// a piece count and false where compress keeps its initial constant
+				var paired func(vc, vf ssa.Value, depth int) bool
+				paired = func(vc, vf ssa.Value, depth int) bool {
+					if depth > 6 {
+						return false
+					}
+					if b, isK := constBool(vf); isK {
+						_, cIsConst := vc.(*ssa.Const)
+						return b != cIsConst
+					}
+					pc, ok1 := vc.(*ssa.Phi)
+					pf, ok2 := vf.(*ssa.Phi)
+					if !ok1 || !ok2 || pc.Block() != pf.Block() {
+						return false
+					}
+					if depth > 0 && (pc == vCompress || pf == vFlag) {
+						return pc == vCompress && pf == vFlag
+					}
+					for i := range pc.Edges {
+						ec, ef := pc.Edges[i], pf.Edges[i]
+						if ec == ssa.Value(pc) && ef == ssa.Value(pf) {
+							continue
+						}
+						if !paired(ec, ef, depth+1) {
+							return false
+						}
+					}
+					return true
+				}
+				if !paired(vCompress, vFlag, 0) {
+					undecided("a boolean lives into the tail that is not 'compress has been set'")
+					return out
+				}
 			}
 
 			// the meaning of compress the states below assume: wherever it is set, it is set to the number of pieces
@@ -297,11 +340,16 @@ func ipv6PlaceAnalysis(c *Ctx) *aiOutcome {
 
 			states, bad := 0, ""
 			for p := int64(0); p <= 8 && bad == ""; p++ {
-				cs := []int64{none}
-				for k := int64(1); k <= p; k++ {
-					cs = append(cs, k)
+				type cstate struct {
+					c   int64
+					has bool
 				}
-				for _, cp := range cs {
+				cs := []cstate{{none, false}}
+				for k := int64(1); k <= p; k++ {
+					cs = append(cs, cstate{k, true})
+				}
+				for _, cst := range cs {
+					cp, has := cst.c, cst.has
 					ai := &aiInterp{c: c, cov: out.cov}
 					for i := range ai.arr {
 						if int64(i) < p {
@@ -332,6 +380,9 @@ func ipv6PlaceAnalysis(c *Ctx) *aiOutcome {
 					fr := &aiFrame{fn: f, env: map[ssa.Value]aiVal{}}
 					fr.env[vPiece] = aiVal{k: aiInt, i: p}
 					fr.env[vCompress] = aiVal{k: aiInt, i: cp}
+					if vFlag != nil {
+						fr.env[vFlag] = aiVal{k: aiBool, b: has}
+					}
 					fr.env[vAddr] = aiVal{k: aiArr}
 					for _, o := range opaque {
 						fr.env[o] = aiVal{k: aiOpaque}
@@ -352,7 +403,7 @@ func ipv6PlaceAnalysis(c *Ctx) *aiOutcome {
 					states++
 					failed := res.tup[1].k == aiErr && res.tup[1].b
 					state := fmt.Sprintf("%d pieces read, ", p)
-					if cp == none {
+					if !has {
 						state += "no '::'"
 					} else {
 						state += fmt.Sprintf("'::' before piece %d", cp)
@@ -360,7 +411,7 @@ func ipv6PlaceAnalysis(c *Ctx) *aiOutcome {
 					// the standard
 					var want []string
 					wantFail := false
-					if cp == none {
+					if !has {
 						wantFail = p != 8
 						for i := 0; i < 8; i++ {
 							want = append(want, string(rune('a'+i)))
